@@ -35,6 +35,7 @@ def check(repo, rep, tier):
     rp.r_retrieve_tree(repo, rep, 'R10.3', {'score', 'shape'})
     rc.r_best(m, rep, 'R10.2')             # the k best come out in order only under admissible estimates (row maxima)
     rc.r_estimates(m, rep, 'R10.2', 'out')
+    rc.r_outside_fn(m, rep, 'R10.2')       # ... and the outside tables those estimates read are the sums of the words outside the span
     rp.r_call_locals(repo, rep, 'R10.3')
     ti = rp.r_category_table(repo, rep, 'R10.3')
     if ti:
